@@ -25,6 +25,7 @@ MUTANTS = [
     M("kemptyfile-polarity", S, "            is_dir = (empty_streams[i] and not empty_files[i]) or (", "            is_dir = (empty_streams[i] and empty_files[i]) or (", "C10-KIND"),
     M("empty-files-not-created", S, "        for file_idx in self._empty_file_indexes:\n", "        for file_idx in []:\n", "C10-KIND"),
     M("empty-file-takes-folder-slot", S, "                file_info.is_directory\n                or empty_streams[i]\n                or folder_idx >= len(self._folders)\n", "                file_info.is_directory\n                or folder_idx >= len(self._folders)\n", "C10-FOLDER"),
+    __import__("sa.selftest.harness", fromlist=["Variant"]).Variant("7z-members-cut-outside-folder-handler", [(S, "                # A stream that ends early decodes without error: the members\n                # that no longer fit are detected here\n                self._extract_files_from_folder(path, folder_idx, decompressed)\n            except Bad7zFile as e:", "            except Bad7zFile as e:"), (S, "                continue\n\n            extracted_folders += 1\n", "                continue\n\n            self._extract_files_from_folder(path, folder_idx, decompressed)\n            extracted_folders += 1\n")], "C10-SIB"),
 ]
 TWINS = [
     T("dict-size-equivalent-form", S, "dict_size = (2 | (prop_byte & 1)) << (prop_byte // 2 + 11)", "dict_size = (2 + (prop_byte & 1)) * (1 << (prop_byte // 2 + 11))"),
